@@ -202,7 +202,7 @@ def dfsr_record(d):
     blocks = [entry_block(1, 66, d.get('data_type', 0)), entry_block(2, 66, 0), entry_block(3, 79, min(frame_size, 32767)), entry_block(4, 66, d['updown']),
               entry_block(5, 66, {1: 1, 255: 1, 0: 0}[d['updown']])]
     if d['indirect'] or d.get('always_spacing'):
-        blocks += [entry_block(8, 68, d['spacing']), entry_block(9, 65, _fix(d['units'], 4))]
+        blocks += [entry_block(8, 68, d['spacing']), entry_block(9, 65, _fix(d.get('sp_units') or d['units'], 4))]
     blocks += [entry_block(12, 68, d.get('absent', -999.25)), entry_block(13, 66, 1 if d['indirect'] else 0)]
     if d['indirect']:
         blocks += [entry_block(14, 65, _fix(d['units'], 4)), entry_block(15, 66, d['xrc'])]
@@ -297,7 +297,7 @@ def dfsr_marks(raw):
 def build(model):
     recs, ref = logical_records(model)
     ph = model['phys']
-    pm = {'prlen': ph['prlen'], 'rec': ph['rec'], 'file': ph['file'], 'chk': ph['chk'], 'tif': ph['tif'], 'records': []}
+    pm = {'prlen': ph['prlen'], 'rec': ph['rec'], 'file': ph['file'], 'chk': ph['chk'], 'tif': ph['tif'], 'records': [], 'tif_pad': ph.get('tif_pad')}
     mp = LP.max_payload(pm)
     for i, (what, raw) in enumerate(recs):
         r = {'key': 0, 'len': len(raw), 'payload_raw': raw}
@@ -341,6 +341,20 @@ def passes_of(model):
     return out
 
 
+#: (units of the frame spacing, units of the X axis) -> factor; only pairs whose factor is beyond argument
+SPACING_UNIT_PAIRS = {('IN  ', '.1IN'): 10.0, ('FEET', '.1IN'): 120.0, ('FEET', 'IN  '): 12.0, ('M   ', 'MM  '): 1000.0, ('M   ', 'CM  '): 100.0,
+                      ('US  ', 'MS  '): 0.001, ('MS  ', 'S   '): 0.001, ('S   ', 'MS  '): 1000.0, ('.1IN', 'IN  '): 0.1, ('MM  ', 'M   '): 0.001,
+                      ('CM  ', 'M   '): 0.01}
+
+
+def spacing_in_x_units(d):
+    """The declared frame spacing (entry blocks 8, 9) expressed in the units of the X axis (entry block 14)."""
+    su = d.get('sp_units')
+    if su is None or su == d['units']:
+        return abs(d['spacing'])
+    return abs(d['spacing']) * SPACING_UNIT_PAIRS[(su, d['units'])]
+
+
 def x_of_frame(f, k):
     """Reference X value of frame k of a logical file (double)."""
     d = f['dfsr']
@@ -349,7 +363,7 @@ def x_of_frame(f, k):
     acc = 0
     for ri, n in enumerate(f['per_record']):
         if k < acc + n:
-            sp = abs(d['spacing']) * (-1.0 if d['updown'] == 1 else 1.0)
+            sp = spacing_in_x_units(d) * (-1.0 if d['updown'] == 1 else 1.0)
             return ref_value(d['xrc'], f['x_words'][ri]) + (k - acc) * sp
         acc += n
     raise IndexError(k)
@@ -385,6 +399,13 @@ def gen_file(rng, fi, max_frames=40, names_pool=None):
          'absent': -999.25, 'channels': channels, 'always_spacing': rng.chance(0.5)}
     if indirect and d['xrc'] == 73:
         d['spacing'] = float(rng.pick([1, 2, 6, 60]))
+    if indirect and rng.chance(0.3):
+        # the spacing is declared in other units than the X axis (inches on a tenth-of-an-inch axis, microseconds on a millisecond
+        # axis): the spacing in X units may then be fractional even where X itself is recorded as an integer
+        su, xu = rng.pick(sorted(SPACING_UNIT_PAIRS))
+        d['sp_units'], d['units'] = su, xu
+        d['xrc'] = rng.pick([68, 73, 73, 79])
+        d['spacing'] = float(rng.pick([0.5, 0.125, 0.25, 1.0, 2.0, 3.0, 6.0, 500.0, 250.0]))
     nframes = rng.wpick([(1, 1), (2, rng.randrange(2, 6)), (5, rng.randrange(min(4, max_frames), max_frames + 1))])
     # frames per record pattern
     per = rng.wpick([(3, 1), (3, rng.randrange(2, 5)), (3, rng.randrange(3, 12)), (1, nframes)])
@@ -396,7 +417,7 @@ def gen_file(rng, fi, max_frames=40, names_pool=None):
         n = min(n, left)
         per_record.append(n)
         left -= n
-    x0 = rng.pick([1000.0, 9000.5, 120.0, 0.0, 5400.25]) if d['xrc'] == 68 or not indirect else float(rng.pick([1000, 120000, 0]))
+    x0 = rng.pick([1000.0, 9000.5, 120.0, 0.0, 5400.25]) if d['xrc'] == 68 or not indirect else float(rng.pick([1000, 120000, 0] if d['xrc'] == 73 else [1000, 20000, 0]))
     sgn = -1.0 if updown == 1 else 1.0
     frames = []
     for k in range(nframes):
@@ -412,7 +433,7 @@ def gen_file(rng, fi, max_frames=40, names_pool=None):
     if indirect:
         acc = 0
         for n in per_record:
-            x_words.append(gen_word(rng, d['xrc'], hint=x0 + sgn * acc * d['spacing']))
+            x_words.append(gen_word(rng, d['xrc'], hint=x0 + sgn * acc * spacing_in_x_units(d)))
             acc += n
     tables = []
     for _ in range(rng.wpick([(3, 0), (4, 1), (2, 2), (1, 3)])):
@@ -436,7 +457,22 @@ def gen_alt(rng, main, max_frames, names_pool):
     return a
 
 
-def gen_model(rng, max_frames=40, names_pool=None, max_files=2, small_pr=False, allow_alt=False):
+def make_huge(f, target_bytes=6_900_000):
+    """Repeat the frames of a logical file until its data fills target_bytes, in data records of about 8 kB (so that most
+    logical records span several physical records).  The values repeat; size is what matters here."""
+    d = f['dfsr']
+    fb = max(1, sum(channel_size(c) for c in d['channels']))
+    k = -(-target_bytes // (fb * len(f['frames'])))
+    f['frames'] = f['frames'] * k
+    n = len(f['frames'])
+    per = max(1, min(n, 8000 // fb))
+    f['per_record'] = [per] * (n // per) + ([n % per] if n % per else [])
+    if d['indirect']:
+        f['x_words'] = [f['x_words'][0]] * len(f['per_record'])
+    f.pop('alt', None)
+
+
+def gen_model(rng, max_frames=40, names_pool=None, max_files=2, small_pr=False, allow_alt=False, huge=False, tif_pad=False):
     rec = rng.chance(0.25)
     filen = rng.pick([None, None, None, 1, 7])
     chk = rng.chance(0.2)
@@ -453,8 +489,17 @@ def gen_model(rng, max_frames=40, names_pool=None, max_files=2, small_pr=False, 
     tif = rng.wpick([(4, 'none'), (3, 'normal'), (1, 'reversed')])
     pre = rng.pick([[], [], ['tape'], ['reel', 'tape'], ['reel']])
     nfiles = rng.wpick([(6, 1), (2, max_files)])
-    return {'phys': {'prlen': prlen, 'rec': rec, 'file': filen, 'chk': chk, 'tif': tif, 'chunk_seed': rng.getrandbits(32) if rng.chance(0.3) else None},
-            'pre': pre, 'post': rng.chance(0.7), 'files': _gen_files(rng, 2 if parity_shape else nfiles, max_frames, names_pool, allow_alt, parity_shape)}
+    if huge:
+        prlen = rng.pick([1024, 1024, 4096, 8192, 65535])
+    model = {'phys': {'prlen': prlen, 'rec': rec, 'file': filen, 'chk': chk, 'tif': tif, 'chunk_seed': rng.getrandbits(32) if rng.chance(0.3) and not huge else None},
+             'pre': pre, 'post': rng.chance(0.7), 'files': _gen_files(rng, 2 if parity_shape else nfiles, max_frames, names_pool, allow_alt, parity_shape)}
+    if huge:
+        make_huge(model['files'][0])
+    if tif_pad:
+        if model['phys']['tif'] == 'none':
+            model['phys']['tif'] = rng.pick(['normal', 'normal', 'reversed'])
+        model['phys']['tif_pad'] = [rng.pick(['min', 'align']), rng.pick([14, 16, 8, 32, 6, 10]), rng.pick(['null', 'space'])]
+    return model
 
 
 def _gen_files(rng, nfiles, max_frames, names_pool, allow_alt, parity_shape=False):
